@@ -77,6 +77,13 @@ class Base:
 
     def check(self, where):
         t = self.t
+        if getattr(self, "quiet", False) and where != "end":
+            # this step goes unobserved: the block is not looked at (no accessor, no iteration, no encoding) until a later step does
+            self.stats["unobserved-edits"] = self.stats.get("unobserved-edits", 0) + 1
+            self.unobserved_run = getattr(self, "unobserved_run", 0) + 1
+            self.stats["longest-unobserved-run"] = max(self.stats.get("longest-unobserved-run", 0), self.unobserved_run)
+            return
+        self.unobserved_run = 0
         pairs = self.exposed()
         chans = [int(c) for c, _ in pairs]
         n_items = self.count_items()
@@ -221,6 +228,29 @@ class Base:
     def close(self):
         pass
 
+    def apply(self, op):
+        # an edit may go unobserved (the harness does not look at the block after it) when the harness needs no look to know its outcome:
+        # explicit free-channel adds and single removals
+        self.quiet = bool(op.get("quiet")) and ((op["op"] == "add" and op.get("mode") == "free") or
+                                                (op["op"] == "remove" and op.get("target") in ("present", "index", "item", "negative-index")))
+        if op["op"] == "look":
+            self.check("look")
+            return
+        try:
+            self._apply(op)
+        finally:
+            self.quiet = False
+
+    def add_call(self, method, item, ch):
+        """the channel is passed by keyword and positionally in turn: (item, channel=None) is the documented signature"""
+        self.calls = getattr(self, "calls", 0) + 1
+        if ch is None:
+            return method(item)
+        if self.calls % 2:
+            self.stats["channel-passed-positionally"] = self.stats.get("channel-passed-positionally", 0) + 1
+            return method(item, ch)
+        return method(item, channel=ch)
+
 
 # ---------------------------------------------------------------------------------------
 class EmgInterp(Base):
@@ -247,7 +277,7 @@ class EmgInterp(Base):
         return EMGTrack(f"s{tag}", np.full(self.N, float(tag), dtype="<f4"))
 
     def do_add(self, item, ch):
-        self.b.addSignal(item) if ch is None else self.b.addSignal(item, channel=ch)
+        self.add_call(self.b.addSignal, item, ch)
 
     def count_items(self):
         return len(self.b)
@@ -281,7 +311,7 @@ class EmgInterp(Base):
         return [("wrong-length", EMGTrack("long", np.zeros(n + 1, dtype="<f4"))), ("wrong-length", EMGTrack("short", np.zeros(max(0, n - 1), dtype="<f4"))),
                 ("wrong-kind", MarkerTrack("m", np.zeros((n, 3), dtype="<f4"))), ("wrong-kind", None), ("wrong-kind", "signal")]
 
-    def apply(self, op):
+    def _apply(self, op):
         if op["op"] == "add":
             self.op_add(op)
         elif op["op"] == "add-invalid":
@@ -358,7 +388,7 @@ class PlatCalInterp(Base):
         return ForcePlatformInfo(f"s{tag}", np.array([1.0, 2.0], dtype="<f4"), np.full((4, 3), float(tag), dtype="<f4"))
 
     def do_add(self, item, ch):
-        self.b.add_platform(item) if ch is None else self.b.add_platform(item, channel=ch)
+        self.add_call(self.b.add_platform, item, ch)
 
     def count_items(self):
         return len(self.b)
@@ -390,7 +420,7 @@ class PlatCalInterp(Base):
             return None
         return [(p["channel"], int(p["label"][1:]) if p["label"].startswith("s") else p["label"]) for p in spec["plats"]]
 
-    def apply(self, op):
+    def _apply(self, op):
         o = op["op"]
         if o == "add":
             self.op_add(op)
@@ -577,7 +607,7 @@ class PlatDataInterp(Base):
                                  np.full(self.N, float(tag), dtype="<f4"))
 
     def do_add(self, item, ch):
-        self.b.add_platform(item) if ch is None else self.b.add_platform(item, channel=ch)
+        self.add_call(self.b.add_platform, item, ch)
 
     def count_items(self):
         return len(list(self.b.platforms))
@@ -599,7 +629,7 @@ class PlatDataInterp(Base):
             return None
         return [(p["channel"], int(specs.f32_of(p["frames"][0][0]))) for p in spec["plats"]]
 
-    def apply(self, op):
+    def _apply(self, op):
         o = op["op"]
         if o == "add":
             self.op_add(op)
@@ -653,15 +683,16 @@ def inits(t):
 def ops(t):
     ch = st.one_of(st.integers(0, 6), st.integers(0, 31999))
     idx = st.integers(0, 1000)
-    add = st.fixed_dictionaries({"op": st.just("add"), "mode": st.sampled_from(["auto", "auto", "free", "free", "taken"]), "ch": ch, "np": st.booleans(), "reuse": st.booleans()})
+    add = st.fixed_dictionaries({"op": st.just("add"), "mode": st.sampled_from(["auto", "auto", "free", "free", "taken"]), "ch": ch, "np": st.booleans(), "reuse": st.booleans(),
+                                  "quiet": st.booleans()})
     readd = st.fixed_dictionaries({"op": st.just("readd"), "mode": st.sampled_from(["auto", "free"]), "idx": idx, "ch": ch})
     bad = st.fixed_dictionaries({"op": st.just("add-invalid"), "mode": st.sampled_from(["auto", "free", "free"]), "ch": ch, "idx": idx})
     if t == "emg":
-        rem = st.fixed_dictionaries({"op": st.just("remove"), "target": st.sampled_from(["present", "present", "absent", "via-shallow-copy"]), "idx": idx})
+        rem = st.fixed_dictionaries({"op": st.just("remove"), "target": st.sampled_from(["present", "present", "absent", "via-shallow-copy"]), "idx": idx, "quiet": st.booleans()})
         return st.one_of(add, add, rem, rem, readd, bad)
     if t == "platCal":
         rem = st.fixed_dictionaries({"op": st.just("remove"), "target": st.sampled_from(["index", "item", "index-out-of-range", "absent-item", "negative-index", "negative-index",
-                                                                                         "negative-index-out-of-range"]), "idx": idx})
+                                                                                         "negative-index-out-of-range"]), "idx": idx, "quiet": st.booleans()})
         many = st.fixed_dictionaries({"form": st.sampled_from(["list", "tuple", "generator", "zip", "iter", "dict-items"]),
                                       "op": st.sampled_from(["remove-many", "add-many", "assign", "assign", "add-many-unequal"]), "mode": st.sampled_from(["free", "auto", "collide"]), "idx": idx, "ch": ch})
         twin = st.fixed_dictionaries({"op": st.just("add-twin"), "idx": idx, "ch": ch})
@@ -684,7 +715,43 @@ def make(t):
                rule=f"{t}: histories of add / remove / bulk operations from an empty, constructor-filled or decoded block")
 
 
-SUBS = [make(t) for t in ("emg", "platCal", "platData")]
+def enum_unobserved(tier):
+    """every run of two or three edits (explicit free-channel add, removal of the first / last item) that nobody looks at in between - the
+    block was looked at before the run and is looked at after it: the pairs are those of the model whatever the net change in size"""
+    import itertools
+
+    alphabet = {"emg": ["add", "remove-first", "remove-last"], "platCal": ["add", "remove-first", "remove-last", "remove-item", "remove-negative"], "platData": ["add"]}
+    for t in ("emg", "platCal", "platData"):
+        starts = {"emg": ["decoded", "empty"], "platCal": ["decoded", "constructor", "empty"], "platData": ["decoded", "empty"]}[t]
+        for start in starts:
+            for k in (1, 2, 3):
+                for ch0 in (0, 7):
+                    for length in (2, 3):
+                        for seq in itertools.product(alphabet[t], repeat=length):
+                            ops_ = [] if start != "empty" else [{"op": "add", "mode": "free", "ch": 40 + 3 * j, "np": False, "reuse": False} for j in range(k)]
+                            ops_.append({"op": "look"})
+                            for j, what in enumerate(seq):
+                                if what == "add":
+                                    ops_.append({"op": "add", "mode": "free", "ch": 100 + 10 * j, "np": bool(j % 2), "reuse": False, "quiet": True})
+                                else:
+                                    tgt = {"remove-first": "index", "remove-last": "index", "remove-item": "item", "remove-negative": "negative-index"}[what]
+                                    ops_.append({"op": "remove", "target": "present" if t == "emg" else tgt, "idx": 0 if what in ("remove-first", "remove-item") else 999,
+                                                 "quiet": True})
+                            ops_.append({"op": "look"})
+                            yield {"init": {"start": start, "k": k, "ch0": ch0}, "ops": ops_, "_script": f"{t}|{start}|k={k}|ch0={ch0}|{'+'.join(seq)}"}
+
+
+def make_unobserved(t):
+    def run(ctx, case):
+        run_history(ctx, case, INTERP[t], summarize)
+
+    return Sub(f"unobserved-edits:{t}", run, kind="enum", enumerate=lambda tier: (c for c in enum_unobserved(tier) if c["_script"].startswith(t + "|")), shards=(2, 4),
+               rule=f"{t}: every run of two or three edits (explicit free-channel add - channel by keyword and positionally in turn -, removal of the first / last item by "
+                    "index, item, negative index or label) with NO look at the block in between, from decoded / constructor-filled / freshly filled blocks of 1..3 items; the "
+                    "block is looked at before and after the run; finite, enumerated", nontrivial_required=False)
+
+
+SUBS = [make(t) for t in ("emg", "platCal", "platData")] + [make_unobserved(t) for t in ("emg", "platCal", "platData")]
 from ..core import optimised_child_sub  # noqa: E402
 SUBS.append(optimised_child_sub("C15", ["emg", "platCal", "platData"]))
 SUBS.append(optimised_child_sub("C15", ["emg", "platCal", "platData"], flags=("-W", "error::UserWarning"), name="under-warnings-as-errors", extra_env={"VERIF_WARNINGS": "error"},
